@@ -13,6 +13,7 @@ import (
 	"path/filepath"
 	"sort"
 	"strings"
+	"time"
 
 	"github.com/sheerbytes/sheerbytes/internal/verifsim"
 )
@@ -75,6 +76,19 @@ func writeTree(root string, seed uint64, files []txFile, dirs []string) error {
 		if err := os.WriteFile(p, fileContent(seed, f.P, f.N), 0o644); err != nil {
 			return err
 		}
+	}
+	// Modification times feed the manifest's item ids (and through them file
+	// keys, sidecar names and map orders): pin them so a spec is reproducible.
+	stamp := time.Unix(1700000000+int64(seed%100000), 0)
+	var all []string
+	filepath.Walk(root, func(p string, info os.FileInfo, err error) error {
+		if err == nil {
+			all = append(all, p)
+		}
+		return nil
+	})
+	for i := len(all) - 1; i >= 0; i-- {
+		os.Chtimes(all[i], stamp, stamp)
 	}
 	return nil
 }
